@@ -26,7 +26,8 @@ def main():
             for d in demos:
                 shutil.copy(d, os.path.join(wt, "zz_seed_" + os.path.basename(d)))
                 names += re.findall(r"^func (Test\w+)\(", open(d).read(), re.M)
-            rc, out = sh("go test -vet=off -count=1 -run '%s' ." % "|".join(names), wt, 600)
+            race = "-race " if os.path.exists(os.path.join(mdir, "notes.md")) and "-race" in open(os.path.join(mdir, "notes.md")).read() else ""
+            rc, out = sh("go test %s-vet=off -count=1 -run '%s' ." % (race, "|".join(names)), wt, 900)
             for d in demos:
                 os.unlink(os.path.join(wt, "zz_seed_" + os.path.basename(d)))
             return rc == 0, out[-1500:]
